@@ -3,11 +3,8 @@ package rules
 import (
 	"fmt"
 	"go/constant"
-	"go/token"
 	"go/types"
 	"sort"
-
-	"golang.org/x/tools/go/ssa"
 
 	"knutlint/core"
 )
@@ -57,13 +54,12 @@ func RuleKMonthBounds(c *core.Ctx) {
 			res := map[int64]calDate{}
 			bad := ""
 			for m := int64(1); m <= 12; m++ {
-				ex := newCalExec(p, fn, iv, m)
-				d, ok, why := ex.run(fn)
+				r, why := runDateFunc(p, fn, iv, -1, m)
 				if why != "" {
 					bad = why
 				}
-				if ok {
-					res[m] = d
+				if r.kind == aDate && (r.cal.kind != calSelf || r.dayOff == 0) {
+					res[m] = r.cal
 				}
 			}
 			allSelf := true
@@ -190,228 +186,6 @@ func floorDiv(a, b int64) int64 {
 
 func floorMod(a, b int64) int64 { return a - floorDiv(a, b)*b }
 
-type calExec struct {
-	p       *core.Prog
-	date    *ssa.Parameter
-	ivParam *ssa.Parameter
-	iv      int64
-	month   int64
-	vals    map[ssa.Value]int64
-	isYear  map[ssa.Value]bool // the value is the date's year plus yoff
-	yoff    map[ssa.Value]int64
-	dayLin  map[ssa.Value][2]int64 // the value is a·d.Day() + b
-	usesM   map[ssa.Value]bool
-	depth   int
-}
-
-func newCalExec(p *core.Prog, fn *ssa.Function, iv, month int64) *calExec {
-	return &calExec{p: p, date: fn.Params[0], ivParam: fn.Params[1], iv: iv, month: month, vals: map[ssa.Value]int64{}, isYear: map[ssa.Value]bool{}, yoff: map[ssa.Value]int64{}, dayLin: map[ssa.Value][2]int64{}, usesM: map[ssa.Value]bool{}}
-}
-
-// run executes fn to its return and interprets the returned date.
-func (ex *calExec) run(fn *ssa.Function) (calDate, bool, string) {
-	var pred *ssa.BasicBlock
-	b := fn.Blocks[0]
-	for steps := 0; steps < 500; steps++ {
-		for _, ins := range b.Instrs {
-			v, ok := ins.(ssa.Value)
-			if !ok {
-				continue
-			}
-			if phi, ok := ins.(*ssa.Phi); ok {
-				for i, pb := range b.Preds {
-					if pb == pred {
-						e := core.Strip(phi.Edges[i])
-						if x, ok := ex.get(e); ok {
-							ex.vals[phi] = x
-							ex.usesM[phi] = ex.usesM[e]
-						}
-						if ex.isYear[e] {
-							ex.isYear[phi] = true
-							ex.yoff[phi] = ex.yoff[e]
-						}
-					}
-				}
-				continue
-			}
-			ex.eval(v)
-		}
-		switch t := b.Instrs[len(b.Instrs)-1].(type) {
-		case *ssa.If:
-			cv, ok := ex.cond(t.Cond)
-			if !ok {
-				return calDate{}, false, ""
-			}
-			pred = b
-			if cv {
-				b = b.Succs[0]
-			} else {
-				b = b.Succs[1]
-			}
-		case *ssa.Jump:
-			pred, b = b, b.Succs[0]
-		case *ssa.Return:
-			if len(t.Results) != 1 {
-				return calDate{}, false, ""
-			}
-			return ex.dateValue(t.Results[0], 0)
-		default:
-			return calDate{}, false, ""
-		}
-	}
-	return calDate{}, false, "the control flow does not terminate within 500 steps"
-}
-
-func (ex *calExec) isDate(v ssa.Value) bool {
-	v = core.Strip(v)
-	if v == ex.date {
-		return true
-	}
-	if ld, ok := v.(*ssa.UnOp); ok && ld.Op == token.MUL {
-		if al, ok := ld.X.(*ssa.Alloc); ok {
-			if st := core.StoresTo(al); len(st) == 1 && core.Strip(st[0].Val) == ex.date {
-				return true
-			}
-		}
-	}
-	return false
-}
-
-// dateValue interprets a time.Time value: time.Date(Y, m, k, consts…, UTC) —
-// directly or through a module helper that forwards year, month and day —,
-// a sibling function applied to the date, or AddDate with constants of one of
-// these.
-func (ex *calExec) dateValue(v ssa.Value, depth int) (calDate, bool, string) {
-	v = core.Strip(v)
-	if depth > 6 {
-		return calDate{}, false, ""
-	}
-	if ex.isDate(v) {
-		return calDate{year: 0, month: ex.month, kind: calSelf}, true, ""
-	}
-	call, ok := v.(*ssa.Call)
-	if !ok {
-		return calDate{}, false, ""
-	}
-	callee := call.Call.StaticCallee()
-	if callee == nil {
-		return calDate{}, false, ""
-	}
-	args := call.Call.Args
-	isTimePkg := callee.Pkg != nil && callee.Pkg.Pkg.Path() == "time"
-	switch {
-	case isTimePkg && callee.Name() == "Date" && callee.Signature.Recv() == nil && len(args) == 8:
-		return ex.ymd(args[0], args[1], args[2], call)
-	case isTimePkg && callee.Name() == "AddDate" && len(args) == 4:
-		base, ok, why := ex.dateValue(args[0], depth+1)
-		if !ok || why != "" {
-			return calDate{}, false, why
-		}
-		var n [3]int64
-		for i, a := range args[1:] {
-			x, ok := ex.get(a)
-			if lin, isLin := ex.dayLin[core.Strip(a)]; !ok && isLin && i == 2 && base.kind == calSelf && lin[0] == -1 {
-				// d.AddDate(y, m, k - d.Day()): the k-th day of the date's month, then years and months
-				y, yok := ex.get(args[1])
-				mo, mok := ex.get(args[2])
-				if !yok || !mok {
-					return calDate{}, false, ""
-				}
-				nb, nok := normCal(base.year, base.month, lin[1])
-				if !nok {
-					return calDate{}, false, fmt.Sprintf("day %d of the date's month at %s depends on the length of the month", lin[1], ex.p.Pos(call.Pos()))
-				}
-				if nb.kind == calLast && (y != 0 || mo != 0) {
-					return calDate{}, false, "AddDate with months at " + ex.p.Pos(call.Pos()) + " is applied to the last day of a month"
-				}
-				return addCal(nb, y, mo, 0, ex.p.Pos(call.Pos()))
-			}
-			if !ok {
-				if ex.dependsOnMonth(a, 0) {
-					return calDate{}, false, "the argument of AddDate at " + ex.p.Pos(call.Pos()) + " depends on the month through an operation this rule does not evaluate"
-				}
-				return calDate{}, false, ""
-			}
-			n[i] = x
-		}
-		return addCal(base, n[0], n[1], n[2], ex.p.Pos(call.Pos()))
-	case ex.p.InModule(callee) && callee.Blocks != nil && len(callee.Params) == 3 && len(args) == 3 && !isTimeType(callee.Params[0].Type()):
-		// a helper like date.Date(year, month, day) that forwards to time.Date
-		var ret *ssa.Return
-		cnt := 0
-		core.EachInstr(callee, func(ins ssa.Instruction) {
-			if r, ok := ins.(*ssa.Return); ok {
-				ret, cnt = r, cnt+1
-			}
-		})
-		if cnt != 1 || len(ret.Results) != 1 {
-			return calDate{}, false, ""
-		}
-		inner, ok := core.Strip(ret.Results[0]).(*ssa.Call)
-		if !ok {
-			return calDate{}, false, ""
-		}
-		ic := inner.Call.StaticCallee()
-		if ic == nil || ic.Pkg == nil || ic.Pkg.Pkg.Path() != "time" || ic.Name() != "Date" || len(inner.Call.Args) != 8 {
-			return calDate{}, false, ""
-		}
-		// which caller argument reaches year, month, day
-		pick := func(a ssa.Value) ssa.Value {
-			a = core.Strip(a)
-			if cv, ok := a.(*ssa.Convert); ok {
-				a = core.Strip(cv.X)
-			}
-			for i, prm := range callee.Params {
-				if a == prm {
-					return args[i]
-				}
-			}
-			return nil
-		}
-		y, m, d := pick(inner.Call.Args[0]), pick(inner.Call.Args[1]), pick(inner.Call.Args[2])
-		if y == nil || m == nil || d == nil {
-			return calDate{}, false, ""
-		}
-		return ex.ymd(y, m, d, call)
-	case core.PkgPathOf(callee) == pkgDate && callee.Blocks != nil && len(callee.Params) == 2 && len(args) == 2 && isTimeType(callee.Params[0].Type()) && ex.isDate(args[0]):
-		if ex.depth > 3 {
-			return calDate{}, false, ""
-		}
-		if iv2, ok := ex.get(args[1]); ok {
-			sub := newCalExec(ex.p, callee, iv2, ex.month)
-			sub.depth = ex.depth + 1
-			return sub.run(callee)
-		}
-	}
-	return calDate{}, false, ""
-}
-
-func (ex *calExec) ymd(y, m, d ssa.Value, at *ssa.Call) (calDate, bool, string) {
-	ys := core.Strip(y)
-	if cv, ok := ys.(*ssa.Convert); ok {
-		ys = core.Strip(cv.X)
-	}
-	mv, mok := ex.get(m)
-	dv, dok := ex.get(d)
-	if !ex.isYear[ys] {
-		if mok && ex.usesM[core.Strip(m)] {
-			return calDate{}, false, "the year of the date built at " + ex.p.Pos(at.Pos()) + " is not the year of the date itself"
-		}
-		return calDate{}, false, ""
-	}
-	if !mok || !dok {
-		if ex.dependsOnMonth(m, 0) || ex.dependsOnMonth(d, 0) {
-			return calDate{}, false, "the month or day of the date built at " + ex.p.Pos(at.Pos()) + " depends on the month through an operation this rule does not evaluate"
-		}
-		return calDate{}, false, ""
-	}
-	cd, ok := normCal(ex.yoff[ys], mv, dv)
-	if !ok {
-		return calDate{}, false, fmt.Sprintf("day %d of month %d at %s depends on the length of the month", dv, mv, ex.p.Pos(at.Pos()))
-	}
-	return cd, true, ""
-}
-
 // addCal applies AddDate(y, m, d) as time does: years and months first (the
 // day of the month is kept), then days.
 func addCal(b calDate, y, m, d int64, at string) (calDate, bool, string) {
@@ -451,170 +225,3 @@ func addCal(b calDate, y, m, d int64, at string) (calDate, bool, string) {
 	return calDate{}, false, fmt.Sprintf("AddDate by %d days at %s: the result depends on the lengths of the months", d, at)
 }
 
-func (ex *calExec) dependsOnMonth(v ssa.Value, depth int) bool {
-	if depth > 10 {
-		return false
-	}
-	v = core.Strip(v)
-	if call, ok := v.(*ssa.Call); ok {
-		if callee := call.Call.StaticCallee(); callee != nil && callee.Name() == "Month" && callee.Pkg != nil && callee.Pkg.Pkg.Path() == "time" {
-			return true
-		}
-	}
-	if ins, ok := v.(ssa.Instruction); ok {
-		for _, op := range ins.Operands(nil) {
-			if op != nil && *op != nil && ex.dependsOnMonth(*op, depth+1) {
-				return true
-			}
-		}
-	}
-	return false
-}
-
-func (ex *calExec) get(v ssa.Value) (int64, bool) {
-	v = core.Strip(v)
-	if cst, ok := v.(*ssa.Const); ok {
-		if cst.Value != nil && cst.Value.Kind() == constant.Int {
-			return constant.Int64Val(cst.Value)
-		}
-		return 0, false
-	}
-	if v == ex.ivParam {
-		return ex.iv, true
-	}
-	x, ok := ex.vals[v]
-	return x, ok
-}
-
-func (ex *calExec) eval(v ssa.Value) {
-	set := func(x int64, uses bool) {
-		ex.vals[v] = x
-		ex.usesM[v] = uses
-	}
-	switch x := v.(type) {
-	case *ssa.Convert:
-		in := core.Strip(x.X)
-		if a, ok := ex.get(in); ok {
-			set(a, ex.usesM[in])
-		}
-		if ex.isYear[in] {
-			ex.isYear[v] = true
-			ex.yoff[v] = ex.yoff[in]
-		}
-		if l, ok := ex.dayLin[in]; ok {
-			ex.dayLin[v] = l
-		}
-	case *ssa.UnOp:
-		if l, ok := ex.dayLin[core.Strip(x.X)]; ok && x.Op == token.SUB {
-			ex.dayLin[v] = [2]int64{-l[0], -l[1]}
-		}
-		if x.Op == token.SUB {
-			if a, ok := ex.get(x.X); ok {
-				set(-a, ex.usesM[core.Strip(x.X)])
-			}
-		}
-	case *ssa.BinOp:
-		a, ok1 := ex.get(x.X)
-		b, ok2 := ex.get(x.Y)
-		// a·Day + b
-		{
-			xs, ys := core.Strip(x.X), core.Strip(x.Y)
-			lx, isLx := ex.dayLin[xs]
-			ly, isLy := ex.dayLin[ys]
-			if !isLx && ok1 {
-				lx, isLx = [2]int64{0, a}, true
-			}
-			if !isLy && ok2 {
-				ly, isLy = [2]int64{0, b}, true
-			}
-			if isLx && isLy && (lx[0] != 0 || ly[0] != 0) {
-				switch x.Op {
-				case token.ADD:
-					ex.dayLin[v] = [2]int64{lx[0] + ly[0], lx[1] + ly[1]}
-				case token.SUB:
-					ex.dayLin[v] = [2]int64{lx[0] - ly[0], lx[1] - ly[1]}
-				}
-				return
-			}
-		}
-		// year ± constant stays a year
-		if xs, ys := core.Strip(x.X), core.Strip(x.Y); ex.isYear[xs] && ok2 && (x.Op == token.ADD || x.Op == token.SUB) {
-			ex.isYear[v] = true
-			if x.Op == token.ADD {
-				ex.yoff[v] = ex.yoff[xs] + b
-			} else {
-				ex.yoff[v] = ex.yoff[xs] - b
-			}
-			return
-		} else if ex.isYear[ys] && ok1 && x.Op == token.ADD {
-			ex.isYear[v] = true
-			ex.yoff[v] = ex.yoff[ys] + a
-			return
-		}
-		if !ok1 || !ok2 {
-			return
-		}
-		uses := ex.usesM[core.Strip(x.X)] || ex.usesM[core.Strip(x.Y)]
-		switch x.Op {
-		case token.ADD:
-			set(a+b, uses)
-		case token.SUB:
-			set(a-b, uses)
-		case token.MUL:
-			set(a*b, uses)
-		case token.QUO:
-			if b != 0 {
-				set(a/b, uses)
-			}
-		case token.REM:
-			if b != 0 {
-				set(a%b, uses)
-			}
-		}
-	case *ssa.Call:
-		callee := x.Call.StaticCallee()
-		if callee == nil || callee.Pkg == nil || callee.Pkg.Pkg.Path() != "time" || len(x.Call.Args) != 1 || !ex.isDate(x.Call.Args[0]) {
-			return
-		}
-		switch callee.Name() {
-		case "Month":
-			set(ex.month, true)
-		case "Year":
-			ex.isYear[v] = true
-		case "Day":
-			ex.dayLin[v] = [2]int64{1, 0}
-		}
-	}
-}
-
-func (ex *calExec) cond(v ssa.Value) (bool, bool) {
-	v = core.Strip(v)
-	switch x := v.(type) {
-	case *ssa.UnOp:
-		if x.Op == token.NOT {
-			r, ok := ex.cond(x.X)
-			return !r, ok
-		}
-	case *ssa.BinOp:
-		a, ok1 := ex.get(x.X)
-		b, ok2 := ex.get(x.Y)
-		if !ok1 || !ok2 {
-			return false, false
-		}
-		switch x.Op {
-		case token.EQL:
-			return a == b, true
-		case token.NEQ:
-			return a != b, true
-		case token.LSS:
-			return a < b, true
-		case token.LEQ:
-			return a <= b, true
-		case token.GTR:
-			return a > b, true
-		case token.GEQ:
-			return a >= b, true
-		}
-	}
-	return false, false
-}
